@@ -26,7 +26,7 @@ CASES_DIR = os.path.join(BUILD, "cases")
 EVIDENCE = os.path.join(VERIF, "evidence")
 REPLAYS = os.path.join(VERIF, "replays")
 COQ_TIMEOUT = 600
-JOBS = max(2, min(16, (os.cpu_count() or 4)))
+JOBS = int(os.environ.get("VERIF_JOBS", "0")) or max(2, min(16, (os.cpu_count() or 4)))
 
 
 class Broken(Exception):
@@ -208,10 +208,9 @@ def sh(cmd, cwd=None, timeout=COQ_TIMEOUT, env=None):
 
 def ensure_built():
     """full incremental .vo build of the Coq development (no -vos)"""
-    if not os.path.exists(os.path.join(COQ, "Makefile")):
-        rc, out, err = sh("coq_makefile -f _CoqProject -o Makefile", cwd=COQ)
-        if rc:
-            raise Broken("coq_makefile failed: " + err)
+    rc, out, err = sh("./gen_project.sh", cwd=COQ)
+    if rc or not os.path.exists(os.path.join(COQ, "Makefile")):
+        raise Broken("gen_project.sh / coq_makefile failed: " + out + err)
     rc, out, err = sh("timeout 3000 make -j%d" % JOBS, cwd=COQ, timeout=3100)
     if rc:
         return False, (out + err)[-4000:]
